@@ -860,6 +860,8 @@ package iavl
 //@   requires orphan != nil && orphan.nodeKey != nil
 //@   ensures [own-key-deleted] err == nil ==> nprunes == old(nprunes) + ite(old(orphan.nodeKey.nonce) == 0 && !old(orphan.isLegacy), 2, 1)
 //@   ensures [last-is-own] err == nil && !old(orphan.isLegacy) ==> len(lastpruned) == 13 && at(lastpruned, 0) == 115
+//@   ensures [root-of-an-older-version-goes-under-its-rekeyed-name] old(orphan.nodeKey.nonce) == 1 && old(orphan.nodeKey.version) < *version ==> orphan.nodeKey.nonce == 0
+//@   ensures [every-other-key-is-used-as-it-is] !(old(orphan.nodeKey.nonce) == 1 && old(orphan.nodeKey.version) < *version) ==> orphan.nodeKey.nonce == old(orphan.nodeKey.nonce)
 //@   modifies *
 
 // ---------------------------------------------------------------- legacy pruning (C16): which legacy nodes may go
